@@ -220,16 +220,20 @@ def vt_bindings(scr, moddir):
     os.remove(os.path.join(moddir, "gen", "all_imports_test.gr.go"))
 
 
-def vt_bindings_root(scr, moddir):
-    """The VT data types generated with /repo's CURRENT root-module generator (includes flattened the way its schema
-    parser hands them over; no resources: the root generation's resource bindings are exercised by C12)."""
+ROOT_SKIP_RESOURCES = "collRet,collRR"   # partial_update with return entity: the root bindings do not compile (open C12 finding)
+
+
+def vt_bindings_root(scr, moddir, with_resources=False):
+    """The VT family generated with /repo's CURRENT root-module generator (includes flattened the way its schema parser
+    hands them over).  with_resources: also the resource bindings, minus ROOT_SKIP_RESOURCES, and resources.go."""
     sys.path.insert(0, os.path.join(VERIF, "schemas"))
     import grammar
     gen = go_module(scr, "genroot", "root")
-    p = subprocess.run([sys.executable, os.path.join(VERIF, "schemas", "vt.py"), "manifest", "verifharness/gen"], stdout=subprocess.PIPE, check=True)
+    env = dict(os.environ, VT_SKIP_RESOURCES=ROOT_SKIP_RESOURCES)
+    p = subprocess.run([sys.executable, os.path.join(VERIF, "schemas", "vt.py"), "manifest", "verifharness/gen"], stdout=subprocess.PIPE, check=True, env=env)
     m = json.loads(p.stdout)
-    mf = os.path.join(scr.path, "vt-root-spec.json")
-    json.dump({"dataTypes": grammar.flatten_includes(m["inputDataTypes"]), "Resources": []}, open(mf, "w"))
+    mf = os.path.join(scr.path, "vt-root-spec%s.json" % ("-res" if with_resources else ""))
+    json.dump({"dataTypes": grammar.flatten_includes(m["inputDataTypes"]), "Resources": m["resources"] if with_resources else []}, open(mf, "w"))
     out = os.path.join(moddir, "gen")
     os.makedirs(out, exist_ok=True)
     p = subprocess.run([gen, mf, out, "verifharness/gen"], stdout=subprocess.PIPE, stderr=subprocess.STDOUT, text=True)
@@ -237,7 +241,10 @@ def vt_bindings_root(scr, moddir):
         raise Broken("the root generator failed on the VT data types:\n" + p.stdout[-3000:])
     with open(os.path.join(moddir, "registry.go"), "w") as f:
         subprocess.run([sys.executable, os.path.join(VERIF, "schemas", "vt.py"), "registry", "verifharness/gen", os.path.join(out, "vt")], stdout=f, check=True)
-    if os.path.exists(os.path.join(moddir, "USE_RESOURCES")):
+    if with_resources:
+        with open(os.path.join(moddir, "resources.go"), "w") as f:
+            subprocess.run([sys.executable, os.path.join(VERIF, "schemas", "vt.py"), "resources", "verifharness/gen"], stdout=f, check=True, env=env)
+    elif os.path.exists(os.path.join(moddir, "USE_RESOURCES")):
         os.remove(os.path.join(moddir, "USE_RESOURCES"))
     with open(os.path.join(moddir, "enums.json"), "w") as f:
         subprocess.run([sys.executable, os.path.join(VERIF, "schemas", "vt.py"), "enums"], stdout=f, check=True)
